@@ -1575,3 +1575,9 @@ def _tuplify(o: Any) -> Any:
 
 def explore_item_custom(params: Any, tier: str, deadline: float) -> dict:
     return run_family(execute, cases(params, tier), deadline)
+
+
+# wave h documentation (what was added to the enumeration; see DESIGN.md 11.0)
+_WAVE_H = '+ loadx: every key next to one name that is not a setting {log, ssl_enabled, not_a_setting, _helper} x {before, after} x {mapping, kwargs, class, namespace, pyfile, toml}'
+RULE = RULE + " " + _WAVE_H
+BOUNDS_DOC = {k: v + " " + _WAVE_H for k, v in BOUNDS_DOC.items()}
